@@ -129,8 +129,21 @@ ClauseW(hh, pre, e, post) ==
     \o If(e.stage = "answers" /\ e.dt > 0 /\ e.res # "Ok", "C19:wired-inner-result-lost", 0, 0)
   ELSE <<>>
 
+\* redirect chains (spec/TimeoutChain.tla): a client built by client/builder.rs with the standard redirect policy and a
+\* timeout; the peer answers hop i after its delay with a 302 to the next hop, the last hop with 200.  The clause is the
+\* property's first sentence applied to what the caller issued, the whole chain: it resolves no later than the duration
+\* (e.dt ms) after the ORIGINAL issue (e.ms = elapsed; 5 ms for timer granularity), the timeout error never earlier, and not
+\* at all if the last response was there strictly before the deadline (e.ok: every hop answers; e.r: ticks until the last
+\* response).  A tie goes either way.
+ClauseCh(hh, pre, e, post) ==
+  IF e.e = "Chain" THEN
+       If(e.res = "Unresolved" \/ e.ms > e.dt + 5, "C19:chain-resolved-after-deadline", 0, 0)
+    \o If(e.res = "Timeout" /\ e.ms < e.dt, "C19:chain-timeout-early", 0, 0)
+    \o If(e.res = "Timeout" /\ e.ok /\ e.r * hh.cfg.tick < e.dt, "C19:chain-inner-result-lost", 0, 0)
+  ELSE <<>>
+
 Clauses(hh, pre, e, post) ==
-  ClauseA(hh, pre, e, post) \o ClauseB(hh, pre, e, post) \o ClauseC(hh, pre, e, post) \o ClauseD(hh, pre, e, post) \o ClauseE(hh, pre, e, post)
+  ClauseCh(hh, pre, e, post) \o ClauseA(hh, pre, e, post) \o ClauseB(hh, pre, e, post) \o ClauseC(hh, pre, e, post) \o ClauseD(hh, pre, e, post) \o ClauseE(hh, pre, e, post)
   \o ClauseW(hh, pre, e, post)
 
 Upd(hh, pre, e, post) ==
